@@ -426,4 +426,136 @@ theorem doEvent_preserves (proj : P → X) (m : MachineDesc) (act : ActionId →
         · simp only [h2, Bool.false_eq_true, ↓reduceIte]
           rw [doTrAfter_preserves proj m act hact, hmain]; exact hb
 
+-- ───────────── monotone predicates of the payload ─────────────
+
+theorem processAuto_mono (Q : P → Prop) (m : MachineDesc) (act : ActionId → Ev → P → A → ActOut P R)
+    (hact : ∀ aid ∈ m.callbacks.map (·.2), ∀ e p a, Q p → Q (act aid e p a).payload)
+    (cur : St) (p : P) (mode : Nat) (a : A) (hq : Q p) : Q (processAuto m act cur p mode a).payload := by
+  unfold processAuto
+  cases hau : autoLookup m cur mode with
+  | none => exact hq
+  | some au =>
+    dsimp only
+    cases hcb : callbackOf m au.event with
+    | none =>
+      dsimp only
+      cases hs : setState m cur ((none : Option Ev).getD au.event) <;> simpa [hs] using hq
+    | some aid =>
+      have hp := hact aid (callbackOf_mem hcb) au.event p a hq
+      dsimp only
+      cases hr : (act aid au.event p a).res with
+      | panic => simpa [hr] using hp
+      | err => simpa [hr] using hp
+      | ok =>
+        simp only [hr]
+        cases hs : setState m cur ((act aid au.event p a).outEvent.getD au.event) <;> simpa [hs] using hp
+
+theorem mainCallback_mono (Q : P → Prop) (m : MachineDesc) (act : ActionId → Ev → P → A → ActOut P R)
+    (hact : ∀ aid ∈ m.callbacks.map (·.2), ∀ e p a, Q p → Q (act aid e p a).payload)
+    (tr : Tr) (b : AutoOut P R) (a : A) (hq : Q b.payload) : Q (mainCallback m act tr b a).payload := by
+  unfold mainCallback
+  cases hcb : callbackOf m tr.event with
+  | none => exact hq
+  | some aid => exact hact aid (callbackOf_mem hcb) _ _ _ hq
+
+theorem doTrAfter_mono (Q : P → Prop) (m : MachineDesc) (act : ActionId → Ev → P → A → ActOut P R)
+    (hact : ∀ aid ∈ m.callbacks.map (·.2), ∀ e p a, Q p → Q (act aid e p a).payload)
+    (tr : Tr) (b : AutoOut P R) (o : ActOut P R) (a : A) (hq : Q o.payload) : Q (doTrAfter m act tr b o a).payload := by
+  unfold doTrAfter
+  dsimp only
+  cases hs : setState m b.state (o.outEvent.getD tr.event) with
+  | none => exact hq
+  | some s1 => exact processAuto_mono Q m act hact s1 o.payload 2 a hq
+
+/-- a predicate of the payload that every callback of the machine preserves is preserved by `Do` -/
+theorem doEvent_mono (Q : P → Prop) (m : MachineDesc) (act : ActionId → Ev → P → A → ActOut P R)
+    (hact : ∀ aid ∈ m.callbacks.map (·.2), ∀ e p a, Q p → Q (act aid e p a).payload)
+    (cur : St) (p : P) (e : Ev) (a : A) (hq : Q p) : Q (doEvent m act cur p e a).payload := by
+  unfold doEvent
+  cases hl : lookup m cur e with
+  | none => exact hq
+  | some tr =>
+    dsimp only
+    by_cases hi : tr.isInternal = true
+    · simpa [hi] using hq
+    · simp only [hi]
+      unfold doTr
+      dsimp only
+      have hb := processAuto_mono Q m act hact cur p 1 a hq
+      have hmain := mainCallback_mono Q m act hact tr (processAuto m act cur p 1 a) a hb
+      by_cases h1 : ((processAuto m act cur p 1 a).executed && (processAuto m act cur p 1 a).res != Res.ok) = true
+      · simp only [h1, ↓reduceIte]; exact hb
+      · simp only [h1, Bool.false_eq_true, ↓reduceIte]
+        by_cases h2 : ((mainCallback m act tr (processAuto m act cur p 1 a) a).res != Res.ok) = true
+        · simp only [h2, ↓reduceIte]; exact hmain
+        · simp only [h2, Bool.false_eq_true, ↓reduceIte]
+          exact doTrAfter_mono Q m act hact tr _ _ a hmain
+
+-- ───────────── a safety predicate under which no callback panics ─────────────
+
+theorem processAuto_safe (Safe : P → Prop) (m : MachineDesc) (act : ActionId → Ev → P → A → ActOut P R)
+    (h1 : ∀ aid ∈ m.callbacks.map (·.2), ∀ e p a, Safe p → (act aid e p a).res ≠ .panic)
+    (h2 : ∀ aid ∈ m.callbacks.map (·.2), ∀ e p a, Safe p → Safe (act aid e p a).payload)
+    (cur : St) (p : P) (mode : Nat) (a : A) (hq : Safe p) :
+    (processAuto m act cur p mode a).res ≠ .panic ∧ Safe (processAuto m act cur p mode a).payload := by
+  unfold processAuto
+  cases hau : autoLookup m cur mode with
+  | none => exact ⟨by simp, hq⟩
+  | some au =>
+    dsimp only
+    cases hcb : callbackOf m au.event with
+    | none =>
+      dsimp only
+      cases hs : setState m cur ((none : Option Ev).getD au.event) <;> simp [hs, hq]
+    | some aid =>
+      have hp := h2 aid (callbackOf_mem hcb) au.event p a hq
+      have hn := h1 aid (callbackOf_mem hcb) au.event p a hq
+      dsimp only
+      cases hr : (act aid au.event p a).res with
+      | panic => exact absurd hr hn
+      | err => simp only [hr]; exact ⟨by simp, hp⟩
+      | ok =>
+        simp only [hr]
+        cases hs : setState m cur ((act aid au.event p a).outEvent.getD au.event) <;> simp [hs, hp]
+
+/-- if no callback of the machine panics on a safe payload and every callback keeps payloads safe, `Do` does not panic -/
+theorem doEvent_no_panic (Safe : P → Prop) (m : MachineDesc) (act : ActionId → Ev → P → A → ActOut P R)
+    (h1 : ∀ aid ∈ m.callbacks.map (·.2), ∀ e p a, Safe p → (act aid e p a).res ≠ .panic)
+    (h2 : ∀ aid ∈ m.callbacks.map (·.2), ∀ e p a, Safe p → Safe (act aid e p a).payload)
+    (cur : St) (p : P) (e : Ev) (a : A) (hq : Safe p) : (doEvent m act cur p e a).res ≠ .panic := by
+  unfold doEvent
+  cases hl : lookup m cur e with
+  | none => simp
+  | some tr =>
+    dsimp only
+    by_cases hi : tr.isInternal = true
+    · simp [hi]
+    · simp only [hi]
+      unfold doTr
+      dsimp only
+      obtain ⟨hb1, hb2⟩ := processAuto_safe Safe m act h1 h2 cur p 1 a hq
+      by_cases hc1 : ((processAuto m act cur p 1 a).executed && (processAuto m act cur p 1 a).res != Res.ok) = true
+      · simp only [hc1, ↓reduceIte]; exact hb1
+      · simp only [hc1, Bool.false_eq_true, ↓reduceIte]
+        -- the main callback
+        have hm1 : (mainCallback m act tr (processAuto m act cur p 1 a) a).res ≠ .panic := by
+          unfold mainCallback
+          cases hcb : callbackOf m tr.event with
+          | none => simp
+          | some aid => exact h1 aid (callbackOf_mem hcb) _ _ _ hb2
+        have hm2 : Safe (mainCallback m act tr (processAuto m act cur p 1 a) a).payload := by
+          unfold mainCallback
+          cases hcb : callbackOf m tr.event with
+          | none => exact hb2
+          | some aid => exact h2 aid (callbackOf_mem hcb) _ _ _ hb2
+        by_cases hc2 : ((mainCallback m act tr (processAuto m act cur p 1 a) a).res != Res.ok) = true
+        · simp only [hc2, ↓reduceIte]; exact hm1
+        · simp only [hc2, Bool.false_eq_true, ↓reduceIte]
+          unfold doTrAfter
+          dsimp only
+          cases hs : setState m (processAuto m act cur p 1 a).state
+              ((mainCallback m act tr (processAuto m act cur p 1 a) a).outEvent.getD tr.event) with
+          | none => simp
+          | some s1 => exact (processAuto_safe Safe m act h1 h2 s1 _ 2 a hm2).1
+
 end Dc4bcVerif.Model
